@@ -16,7 +16,7 @@ from . import s3, s4
 
 ID = "C08"
 RULE = (
-    "(a) accounting: every CVR list of n cards with every style over 2 contests x per-contest card bound in {unset, count, "
+    "(a) accounting: every CVR list of n cards with every style over 2 contests x per-contest card bound (Python integers, and again as numpy integers) in {unset, count, "
     "count+1, count+2} x stratum bound in {n, n+1, n+3} x style on/off x pool label on/off (and three contests with shortfalls in {0,1,3,6}, style on): make_phantoms must return the "
     "original objects unchanged and first, unique phantom identifiers distinct from real ones, per-contest (style) or total "
     "(no style) record counts equal to the bound, and no more phantoms than the largest shortfall; (b) scoring: for every "
@@ -37,7 +37,7 @@ def bounds(tier):
             "scoring populations": "<= 2 cards of the S3 alphabet x 4 assorter kinds", "vendor samples": "all ordered samples of <= 3 from lists of <= 4"}
 
 
-def judge_accounting(styles, cb, sb, use_style, pool, IDS=IDS):
+def judge_accounting(styles, cb, sb, use_style, pool, IDS=IDS, np_bounds=False):
     n = len(styles)
     cvrs = s4.make_cards(styles, list(range(1, n + 1)))
     for c in cvrs:
@@ -46,6 +46,8 @@ def judge_accounting(styles, cb, sb, use_style, pool, IDS=IDS):
     counts = {c: sum(1 for s in styles if c in s) for c in IDS}
     max_cards = n + sb
     cards = {c: (None if cb[i] is None else counts[c] + cb[i]) for i, c in enumerate(IDS)}
+    if np_bounds:  # bounds as numpy integers (what Contest.check_cards and any numpy sum produce), alternating widths
+        cards = {c: (None if v is None else (np.int64(v) if i % 2 == 0 else np.int32(v))) for i, (c, v) in enumerate(cards.items())}
     cons = s4.make_contests(IDS, {}, cards_per=cards)
     for c in IDS:
         cons[c].cards = cards[c]
@@ -211,6 +213,15 @@ def run_shard(sh, rec):
                                     rec.vac("shared_phantom_two_contests")
                             for key, what in v:
                                 rec.violate(key, what, {"kind": "acct", "styles": [list(s) for s in styles], "cb": list(cb), "sb": sb, "use_style": use_style, "pool": pool, "ids": ids})
+                            if use_style and not pool and any(b is not None for b in cb):
+                                v2, info2 = judge_accounting(styles, cb, sb, use_style, pool, ids, np_bounds=True)
+                                rec.trans()
+                                rec.evals()
+                                rec.vac("bounds_given_as_numpy_integers")
+                                rec.observe((styles, cb, sb, "np", info2))
+                                for key, what in v2:
+                                    rec.violate(key + "|numpy-bounds", what + " [contest bounds given as numpy integers]",
+                                                {"kind": "acct", "styles": [list(s) for s in styles], "cb": list(cb), "sb": sb, "use_style": use_style, "pool": pool, "ids": ids, "np_bounds": True})
                             if rec.want_sample((styles, cb, sb, use_style, pool)):
                                 rec.sample({"styles": [list(s) for s in styles], "contest_bounds(count+)": list(cb), "stratum_bound(n+)": sb, "use_style": use_style,
                                             "pool_label": pool, "phantoms": info and info["phantoms"]})
@@ -278,7 +289,8 @@ def explore(tier, seed):
 
 def run_case(case):
     if case["kind"] == "acct":
-        return judge_accounting([tuple(s) for s in case["styles"]], tuple(case["cb"]), case["sb"], case["use_style"], case["pool"], case.get("ids", IDS))[0]
+        v = judge_accounting([tuple(s) for s in case["styles"]], tuple(case["cb"]), case["sb"], case["use_style"], case["pool"], case.get("ids", IDS), bool(case.get("np_bounds")))[0]
+        return [(k + "|numpy-bounds", w) for k, w in v] if case.get("np_bounds") else v
     if case["kind"] == "score":
         return judge_scoring(case["akind"], [tuple(c) for c in case["cards"]], case["style"])[0]
     return judge_vendor(case["vendor"], tuple(case["layout"]), case["sample"])
